@@ -5,6 +5,8 @@ import (
 
 	abci "github.com/cometbft/cometbft/abci/types"
 
+	channeltypes "github.com/cosmos/ibc-go/v10/modules/core/04-channel/types"
+
 	providertypes "github.com/cosmos/interchain-security/v7/x/ccv/provider/types"
 )
 
@@ -70,6 +72,25 @@ func (m *monC17) checkBindings(height int64) {
 	for ch, cid := range revChan {
 		if fwdChan[cid] != ch {
 			w.Violation("C17", "channel-forward-index-disagrees", map[string]any{"consumer": cid, "channel": ch, "forward": fwdChan[cid], "height": height})
+		}
+	}
+	// at most one OPEN channel on the provider port per consumer (attributed through the client it is built on)
+	openBy := map[string][]string{}
+	for _, ic := range w.P.PApp.IBCKeeper.ChannelKeeper.GetAllChannels(ctx) {
+		if ic.PortId != "provider" || ic.State != channeltypes.OPEN || len(ic.ConnectionHops) != 1 {
+			continue
+		}
+		if c, ok := w.P.PApp.IBCKeeper.ConnectionKeeper.GetConnection(ctx, ic.ConnectionHops[0]); ok {
+			if cid, ok := revClient[c.ClientId]; ok {
+				openBy[cid] = append(openBy[cid], ic.ChannelId)
+			} else {
+				w.Violation("C17", "open-ccv-channel-on-unbound-client", map[string]any{"channel": ic.ChannelId, "client": c.ClientId, "height": height})
+			}
+		}
+	}
+	for cid, chs := range openBy {
+		if len(chs) > 1 {
+			w.Violation("C17", "several-open-ccv-channels-for-one-consumer", map[string]any{"consumer": cid, "channels": chs, "height": height})
 		}
 	}
 	if len(fwdChan) > 0 {
